@@ -148,6 +148,11 @@ def run_blob(case):
         got_bytes = b"" if (got is None or isinstance(got, str)) else got.binary
         if got_bytes != want_bytes or (want_bytes and ((got.format or "") != (want.format or "") or len(got) != len(want_bytes))):
             raise Failure("blob-connection:payload-differs", f"{where}: Client holds {len(got_bytes)} bytes, driver {len(want_bytes)}")
+        if want is not None and not want_bytes:
+            # an empty BLOB the driver published explicitly still has its format
+            got_fmt = None if (got is None or isinstance(got, str)) else (got.format or "")
+            if got_fmt != (want.format or ""):
+                raise Failure("blob-connection:empty-blob-format-lost", f"{where}: driver published an empty BLOB with format {want.format!r}, the Client holds format {got_fmt!r}")
         # ---- sentinel: nothing stalls ----------------------------------------------------------
         st_.in_loop(lambda: setattr(drv.g.t.b, "value", f"sentinel-{n}"))
         if client["DEV"]["TXT"]["B"].value != f"sentinel-{n}":
